@@ -11,8 +11,8 @@ VERIF = os.path.dirname(os.path.dirname(os.path.abspath(__file__)))
 REPO = os.environ.get('PYVC_REPO', '/repo')
 
 PROP_MODULES = {
-    'C04': ['contracts.c04'], 'C05': ['contracts.c05'], 'C06': ['contracts.c06'],
-    'C07': ['contracts.c07'], 'C08': ['contracts.c08'], 'C09': ['contracts.c09'],
+    'C04': ['contracts.c04', 'contracts.c06', 'contracts.c08'], 'C05': ['contracts.c05'], 'C06': ['contracts.c06'],
+    'C07': ['contracts.c07', 'contracts.c06'], 'C08': ['contracts.c08'], 'C09': ['contracts.c09'],
     'C10': ['contracts.c10'], 'C11': ['contracts.c11'], 'C12': ['contracts.c12'],
     'C13': ['contracts.c13'], 'C14': ['contracts.c14'], 'C15': ['contracts.c15'],
     'C16': ['contracts.c16'], 'C17': ['contracts.c17'], 'C18': ['contracts.c18'],
@@ -244,7 +244,7 @@ def match_known(known, r, vc):
 def match_known_native(known, v):
     for k in known:
         if k.get('native_check') and k['native_check'] == v.get('check') and \
-                (not k.get('input_pattern') or re.search(k['input_pattern'], json.dumps(v.get('input'), sort_keys=True))):
+                k.get('input') == v.get('input') and k.get('signature') == v.get('signature'):
             return k
     return None
 
